@@ -3,6 +3,7 @@
 #include "recipes.hpp"
 
 #include <algorithm>
+#include <cmath>
 #include <stdexcept>
 
 namespace tbfsim {
@@ -15,7 +16,7 @@ std::map<std::string, WorldFactory>& worldRegistry() {
 int schedulesPer(const std::string& prop, const std::string& tier) {
     const bool th = (tier == "thorough");
     if (prop == "C03") return th ? 24 : 8;
-    if (prop == "C12") return 1;
+    if (prop == "C12") return 118;
     if (prop == "C13") return th ? 3 : 2;
     return th ? 8 : 4;
 }
@@ -201,6 +202,13 @@ void recipeExec(RunState& rs) {
                      std::string(counter ? "counter-wrapped kernel vs plain kernel" : "task-based executor vs sequential executor"));
         compareViews(ctx, world->view(), twin->view(), (1u << BUF_CELL_SYMB) | (1u << BUF_PART_SYMB), "symbolic-changed", "symbolic data after execute vs sequential twin");
         rs.drain("run");
+        if (weightLayout && !counter && !sc.isPeriodic() && sc.isTsm()) {
+            std::vector<int> flagSeq;
+            for (const HistOp& op : sc.history) if (op.op == "execute") flagSeq.push_back(op.flags);
+            RefValues ref = refEvaluate(ctx, world->view(), flagSeq);
+            compareWithRef(ctx, world->view(), ref, "ref", true, true);
+            rs.drain("run");
+        }
         checkKernelObjects(rs, *world, "run");
         if (counter) {
             std::vector<std::array<long, 7>> per;
@@ -224,6 +232,204 @@ void recipeExec(RunState& rs) {
     twin->destroyTree();
 }
 
+
+// ---------------------------------------------------------------------------------------------
+// C12: the staged history (sc.history) against one full run by the same executor on an identical tree.
+void recipeStaged(RunState& rs) {
+    Ctx& ctx = rs.ctx;
+    const Scenario& sc = rs.sc;
+    int unionFlags = 0;
+    for (const HistOp& op : sc.history) if (op.op == "execute") unionFlags |= op.flags;
+
+    setStage("build");
+    ctx.sim.maxThreads = sc.threadsCtor;
+    std::unique_ptr<IWorld> full = makeWorld(sc);
+    full->buildTree();
+    ctx.view = &full->view();
+    full->makeAlgo();
+    if (sc.variant == "staged") {
+        HistOp one; one.op = "execute"; one.flags = unionFlags;
+        doExecute(rs, *full, one, sc.isTaskBased(), "full");
+    }
+    std::unique_ptr<IWorld> staged = makeWorld(sc);
+    staged->buildTree();
+    ctx.view = &staged->view();
+    staged->makeAlgo();
+    runHistory(rs, *staged, sc.history, sc.isTaskBased(), "run");
+    if (sc.variant == "staged") {
+        setStage("compare");
+        compareViews(ctx, staged->view(), full->view(), (1u << BUF_MULT) | (1u << BUF_LOCAL) | (1u << BUF_RHS) | (1u << BUF_CELL_SYMB) | (1u << BUF_PART_SYMB),
+                     "staged-vs-full", "staged execute() calls vs one full run of the same executor");
+        rs.drain("run");
+    }
+    setStage("teardown");
+    staged->destroyAlgo(); staged->destroyTree();
+    full->destroyAlgo(); full->destroyTree();
+}
+
+// ---------------------------------------------------------------------------------------------
+// C13: move / rebuild / execute histories against the flat particle model (ctx.inputs) and freshly built trees.
+using Bytes = std::vector<unsigned char>;
+
+std::map<std::pair<int, long>, Bytes> rhsByIndex(const TreeView& v) {
+    std::map<std::pair<int, long>, Bytes> m;
+    for (const LeafRec& l : v.leaves) for (long i = 0; i < l.n; ++i) {
+        Bytes b;
+        for (size_t k = 0; k < l.rhs.size(); ++k) if (l.rhs[k]) b.insert(b.end(), l.rhs[k] + size_t(i) * v.rhsElem, l.rhs[k] + size_t(i + 1) * v.rhsElem);
+        m[std::make_pair(l.tree, l.indexes[i])] = b;
+    }
+    return m;
+}
+
+void applyMoves(Ctx& ctx, TreeView& v, const HistOp& op) {
+    std::map<std::pair<int, long>, std::pair<const LeafRec*, long>> where;
+    for (const LeafRec& l : v.leaves) for (long i = 0; i < l.n; ++i) where[std::make_pair(l.tree, l.indexes[i])] = std::make_pair(&l, i);
+    for (const MoveRec& m : op.moves) {
+        auto it = where.find(std::make_pair(m.tree, m.index));
+        if (it == where.end()) continue;
+        for (int d = 0; d < 3; ++d) {
+            double* row = reinterpret_cast<double*>(it->second.first->data[size_t(d)]);
+            row[it->second.second] = m.pos[size_t(d)];
+            ctx.inputs[m.tree][size_t(m.index)][size_t(d)] = m.pos[size_t(d)];
+        }
+    }
+}
+
+void checkAfterRebuild(RunState& rs, IWorld& w, const std::map<std::pair<int, long>, Bytes>& rhsBefore) {
+    Ctx& ctx = rs.ctx;
+    const Scenario& sc = rs.sc;
+    const TreeView& v = w.view();
+    // (a) every index exactly once, data bit-identical to the model, (e) inside its leaf
+    std::map<std::pair<int, long>, int> seen;
+    const double lwDiv = double(1L << (ctx.height - 1));
+    for (const LeafRec& l : v.leaves) {
+        if (l.n < 1) ctx.addViolation("rebuild:structure", "empty-leaf", "a leaf without particles exists after rebuild");
+        for (long i = 0; i < l.n; ++i) {
+            const long oi = l.indexes[i];
+            if (oi < 0 || oi >= long(ctx.inputs[l.tree].size())) { ctx.addViolation("rebuild:identity", "index-range", "particle index " + std::to_string(oi) + " out of range after rebuild"); continue; }
+            seen[std::make_pair(l.tree, oi)] += 1;
+            for (size_t k = 0; k < l.data.size() && k < 4; ++k) {
+                double d; std::memcpy(&d, l.data[k] + size_t(i) * sizeof(double), sizeof d);
+                if (std::memcmp(&d, &ctx.inputs[l.tree][size_t(oi)][k], sizeof d) != 0) {
+                    ctx.addViolation("rebuild:data", k < 3 ? "position" : "data-value", "particle " + std::to_string(oi) + ": value " + std::to_string(k) + " differs from the edited particle after rebuild");
+                    break;
+                }
+            }
+            for (int d = 0; d < 3; ++d) {
+                const double rel = ctx.inputs[l.tree][size_t(oi)][size_t(d)] - ctx.corner[d];
+                const double lw = ctx.width[d] / lwDiv;
+                const double tol = 16.0 * 2.3e-16 * (std::abs(ctx.width[d]) + std::abs(ctx.corner[d]));
+                if (rel < double(l.coord[size_t(d)]) * lw - tol || rel > double(l.coord[size_t(d)] + 1) * lw + tol) {
+                    ctx.addViolation("rebuild:binning", "outside-leaf", "particle " + std::to_string(oi) + " does not lie in the leaf that holds it after rebuild");
+                    break;
+                }
+            }
+        }
+    }
+    for (int t = 0; t < (sc.isTsm() ? 2 : 1); ++t)
+        for (long i = 0; i < long(ctx.inputs[t].size()); ++i) {
+            auto it = seen.find(std::make_pair(t, i));
+            if (it == seen.end()) { ctx.addViolation("rebuild:identity", "lost", "particle " + std::to_string(i) + " of tree " + std::to_string(t) + " is missing after rebuild"); break; }
+            if (it->second != 1) { ctx.addViolation("rebuild:identity", "duplicated", "particle " + std::to_string(i) + " appears " + std::to_string(it->second) + " times after rebuild"); break; }
+        }
+    // (b) results preserved by original index
+    auto now = rhsByIndex(v);
+    for (auto& kv : rhsBefore) {
+        auto it = now.find(kv.first);
+        if (it == now.end()) continue;
+        if (it->second != kv.second) { ctx.addViolation("rebuild:results", "not-preserved", "accumulated results of particle " + std::to_string(kv.first.second) + " changed across rebuild"); break; }
+    }
+    // (c) expansions reset
+    for (const CellRec& c : v.cells) {
+        bool z = true;
+        for (size_t b = 0; b < c.multBytes; ++b) if (c.mult[b]) z = false;
+        for (size_t b = 0; b < c.localBytes; ++b) if (c.local[b]) z = false;
+        if (!z) { ctx.addViolation("rebuild:cells", "not-zero", "expansion of cell L" + std::to_string(c.level) + " is not zero after rebuild"); break; }
+    }
+    // (d) structure equals that of a freshly built tree
+    std::unique_ptr<IWorld> fresh = makeWorld(sc);
+    fresh->buildTree();
+    const TreeView& f = fresh->view();
+    if (f.bufs.size() != v.bufs.size()) ctx.addViolation("rebuild:structure", "groups", "rebuild produced " + std::to_string(v.bufs.size()) + " buffers, a fresh tree has " + std::to_string(f.bufs.size()));
+    else for (size_t i = 0; i < f.bufs.size(); ++i)
+        if (f.bufs[i].bytes != v.bufs[i].bytes || f.bufs[i].kind != v.bufs[i].kind || f.bufs[i].level != v.bufs[i].level) { ctx.addViolation("rebuild:structure", "group-shape", "group " + v.bufs[i].name() + " differs in shape from the fresh tree's"); break; }
+    if (f.cells.size() != v.cells.size()) ctx.addViolation("rebuild:structure", "cells", "rebuild has " + std::to_string(v.cells.size()) + " cells, a fresh tree " + std::to_string(f.cells.size()));
+    else for (size_t i = 0; i < f.cells.size(); ++i)
+        if (f.cells[i].level != v.cells[i].level || f.cells[i].coord != v.cells[i].coord || f.cells[i].group != v.cells[i].group || f.cells[i].tree != v.cells[i].tree) { ctx.addViolation("rebuild:structure", "cell", "cell #" + std::to_string(i) + " differs from the fresh tree's"); break; }
+    if (f.leaves.size() != v.leaves.size()) ctx.addViolation("rebuild:structure", "leaves", "rebuild has " + std::to_string(v.leaves.size()) + " leaves, a fresh tree " + std::to_string(f.leaves.size()));
+    else for (size_t i = 0; i < f.leaves.size(); ++i) {
+        const LeafRec& a = v.leaves[i]; const LeafRec& b = f.leaves[i];
+        std::multiset<long> sa(a.indexes, a.indexes + a.n), sb(b.indexes, b.indexes + b.n);
+        if (a.coord != b.coord || a.tree != b.tree || a.group != b.group || sa != sb) { ctx.addViolation("rebuild:structure", "leaf-members", "leaf #" + std::to_string(i) + " differs from the fresh tree's (coordinate or members)"); break; }
+    }
+    fresh->destroyTree();
+    ctx.view = &w.view();
+    // the fresh world re-registered buffer names for its own tree: restore this tree's
+    for (const BufRec& b : w.view().bufs) ctx.sim.registerName(b.ptr, b.name());
+    rs.drain("run");
+}
+
+void recipeRebuild(RunState& rs) {
+    Ctx& ctx = rs.ctx;
+    const Scenario& sc = rs.sc;
+    setStage("build");
+    ctx.sim.maxThreads = sc.threadsCtor;
+    std::unique_ptr<IWorld> w = makeWorld(sc);
+    w->buildTree();
+    ctx.view = &w->view();
+    w->makeAlgo();
+    bool cellsZero = true;
+    for (const HistOp& op : sc.history) {
+        if (op.op == "move") {
+            applyMoves(ctx, w->view(), op);
+        } else if (op.op == "rebuild") {
+            setStage("rebuild");
+            auto before = rhsByIndex(w->view());
+            if (!w->rebuild()) { ctx.addViolation("rebuild:not-instantiable", sc.ordering, "TbfTree::rebuild() does not instantiate for the " + sc.ordering + " ordering"); rs.drain("run"); break; }
+            ctx.view = &w->view();
+            setStage("rebuild-oracle");
+            checkAfterRebuild(rs, *w, before);
+            cellsZero = true;
+        } else if (op.op == "execute") {
+            // expected = preserved results + results of the same executor on a freshly built tree
+            auto before = rhsByIndex(w->view());
+            std::map<std::pair<int, long>, Bytes> freshRes;
+            const bool predict = cellsZero && ctx.view->rhsElem == sizeof(unsigned long);
+            if (predict) {
+                std::unique_ptr<IWorld> fresh = makeWorld(sc);
+                fresh->buildTree();
+                ctx.view = &fresh->view();
+                fresh->makeAlgo();
+                doExecute(rs, *fresh, op, sc.isTaskBased(), "fresh");
+                freshRes = rhsByIndex(fresh->view());
+                fresh->destroyAlgo(); fresh->destroyTree();
+                ctx.view = &w->view();
+                for (const BufRec& b : w->view().bufs) ctx.sim.registerName(b.ptr, b.name());
+            }
+            doExecute(rs, *w, op, sc.isTaskBased(), "run");
+            if (predict) {
+                auto now = rhsByIndex(w->view());
+                for (auto& kv : now) {
+                    const Bytes& b0 = before[kv.first];
+                    const Bytes& bf = freshRes[kv.first];
+                    if (b0.size() != kv.second.size() || bf.size() != kv.second.size()) continue;
+                    bool ok = true;
+                    for (size_t o = 0; o + sizeof(unsigned long) <= kv.second.size(); o += sizeof(unsigned long)) {
+                        unsigned long a, b, c;
+                        std::memcpy(&a, &b0[o], sizeof a); std::memcpy(&b, &bf[o], sizeof b); std::memcpy(&c, &kv.second[o], sizeof c);
+                        if (a + b != c) ok = false;
+                    }
+                    if (!ok) { ctx.addViolation("rebuild:execute-after", "results", "after rebuild + execute, particle " + std::to_string(kv.first.second) + " does not hold preserved results + one full interaction of the rebuilt configuration"); break; }
+                }
+                rs.drain("run");
+            }
+            cellsZero = false;
+        }
+    }
+    setStage("teardown");
+    w->destroyAlgo(); w->destroyTree();
+}
+
 }  // namespace
 
 Json runScenario(const Scenario& sc) {
@@ -236,7 +442,9 @@ Json runScenario(const Scenario& sc) {
     RunState rs(ctx, sc);
     std::string fatal;
     try {
-        recipeExec(rs);
+        if (sc.prop == "C12") recipeStaged(rs);
+        else if (sc.prop == "C13") recipeRebuild(rs);
+        else recipeExec(rs);
     } catch (const std::exception& e) {
         fatal = e.what();
     }
